@@ -22,7 +22,6 @@ spec fn all_sealedn(d: Seq<u8>, ps: int) -> bool {
 impl E57Reader {
 //@fn src/e57_reader.rs E57Reader get_u64 serves=C08,C09,C16,C17 ret=r
 //@rw reader: &mut T ==> reader: &mut Dev
-//@rw u64::from_le_bytes\(buf\) ==> shim_u64_from_le_bytes(buf)
 //@rw std::io::SeekFrom ==> SeekFrom
 //@sig
         ensures final(reader).data@ == old(reader).data@,
@@ -106,7 +105,6 @@ impl E57Reader {
     // canary
 //@fn src/e57_reader.rs E57Reader get_u64 rename=get_u64__canary canary ret=r
 //@rw reader: &mut T ==> reader: &mut Dev
-//@rw u64::from_le_bytes\(buf\) ==> shim_u64_from_le_bytes(buf)
 //@rw std::io::SeekFrom ==> SeekFrom
 //@sig
         ensures r is Err,
